@@ -501,7 +501,7 @@ def run(tier):
     ck = core.Check(PID, tier)
     binary = build.ensure('asan', parts=['parse', 'domdump'])
     nproc = max(2, min(core.NCPU, int(os.environ.get('XV_PROCS', core.NCPU))))
-    nschemas = int(os.environ.get('XV_C10_N', 80 if tier == 'quick' else 2400))      # XV_C10_N: development knob
+    nschemas = int(os.environ.get('XV_C10_N', 80 if tier == 'quick' else 800))      # XV_C10_N: development knob
     chunk = 80 if tier == 'quick' else 200
     stats = collections.Counter()
     scen_seen = collections.Counter()
